@@ -76,10 +76,84 @@ where
         let b = json_data.b;
         let cones = json_data.cones;
         let settings = settings.unwrap_or(json_data.settings);
+
+        // a well-formed JSON document can still describe an inconsistent
+        // problem.  Report that as an error here rather than panicking
+        // inside the solver constructor.
+        validate_json_data(&P, &q, &A, &b, &cones, &settings)
+            .map_err(|e| io::Error::new(io::ErrorKind::InvalidData, e))?;
+
         let solver = Self::new(&P, &q, &A, &b, &cones, settings);
 
         Ok(solver)
     }
+}
+
+// checks everything that `DefaultSolver::new` would otherwise assert
+fn validate_json_data<T: FloatT>(
+    P: &CscMatrix<T>,
+    q: &[T],
+    A: &CscMatrix<T>,
+    b: &[T],
+    cones: &[SupportedConeT<T>],
+    settings: &DefaultSettings<T>,
+) -> Result<(), String> {
+    P.check_format().map_err(|e| format!("P : {}", e))?;
+    A.check_format().map_err(|e| format!("A : {}", e))?;
+
+    let (m, n) = (b.len(), q.len());
+    if A.nrows() != m {
+        return Err("A and b incompatible dimensions.".to_string());
+    }
+    if A.ncols() != n {
+        return Err("A and q incompatible dimensions.".to_string());
+    }
+    if P.ncols() != n {
+        return Err("P and q incompatible dimensions.".to_string());
+    }
+    if !P.is_square() {
+        return Err("P not square.".to_string());
+    }
+
+    let badcones = || "Constraint dimensions inconsistent with size of cones.".to_string();
+    let mut p: usize = 0;
+    for cone in cones.iter() {
+        // no single cone can be larger than m.  Checking the raw
+        // parameter first keeps the dimension arithmetic from overflowing
+        let dim = match cone {
+            SupportedConeT::ZeroConeT(dim) => *dim,
+            SupportedConeT::NonnegativeConeT(dim) => *dim,
+            SupportedConeT::SecondOrderConeT(dim) => *dim,
+            #[cfg(feature = "sdp")]
+            SupportedConeT::PSDTriangleConeT(dim) => *dim,
+            SupportedConeT::GenPowerConeT(_, dim2) => *dim2,
+            _ => 0,
+        };
+        if dim > m {
+            return Err(badcones());
+        }
+        p = p.checked_add(cone.nvars()).ok_or_else(badcones)?;
+
+        // parameter checks as in GenPowerCone::new
+        if let SupportedConeT::GenPowerConeT(α, _) = cone {
+            if cone.nvars() != 0
+                && !(α.iter().all(|r| *r > T::zero())
+                    && (T::one() - α.sum()).abs()
+                        < (T::epsilon() * α.len().as_T() * (0.5).as_T()))
+            {
+                return Err("Invalid GenPowerConeT parameters.".to_string());
+            }
+        }
+    }
+    if p != m {
+        return Err(badcones());
+    }
+
+    settings.validate()?;
+    if !settings.direct_kkt_solver {
+        return Err("Indirect and other solve strategies not yet supported.".to_string());
+    }
+    Ok(())
 }
 
 fn sanitize_settings<T: FloatT>(settings: &mut DefaultSettings<T>) {
